@@ -154,6 +154,10 @@ void PositiveVisitor::bvisit(const Add &x)
         can_be_false = false;
     } else if (coef->is_negative()) {
         can_be_true = false;
+    } else if (coef->is_complex() or is_a<NaN>(*coef)) {
+        // a non-real constant term: the sum of it and positive terms is not
+        // positive
+        can_be_true = false;
     }
     NegativeVisitor neg_visitor(assumptions_);
     for (const auto &p : dict) {
